@@ -1687,19 +1687,27 @@ def r03b(P, R):
         # a call "descends" if it is the selection checker or can reach it (a wrapper around the call is as good)
         down = {p for p, g_ in P.fns.items() if p != core.path and g_.kind in ("Fn", "AssocFn") and css.path in P.reachable([g_])} | {css.path}
         try:
+            # every pair with a composite enclosing type: the enclosing selection was legal, so the fragment's body must be looked
+            # at whatever the kind of its type condition (a non-composite condition is reported by the selection checker when it
+            # gets there).  A path that reports something itself instead of descending still rejects the document: only for
+            # non-composite conditions is that accepted as an alternative
             for a_ in sorted(COMPOSITE):
-                for b_ in sorted(COMPOSITE):
-                    E = KindEval(P, want=lambda ev: ev[0] == "call" and ev[1] in down, enter=lambda g_: True if same_job(core, g_) else None)
+                for b_ in ALL_KINDS:
+                    E = KindEval(P, want=lambda ev: (ev[0] == "call" and ev[1] in down) or (ev[0] == "ctor" and ev[1].startswith(ERR + "::")),
+                                 enter=lambda g_: True if same_job(core, g_) else None)
                     paths = E.run(core, {ri: V(a_), ci: V(b_)})
-                    skipping = [1 for _, evs, _ in paths if not evs]
+                    skipping = [1 for _, evs, _ in paths if not any(e[0] == "call" for e in evs)
+                                and not (b_ in LEAF_OR_INPUT and any(e[0] == "ctor" for e in evs))]
                     if not paths:
                         R.undecided("R03-b", "core-descent:(%s, %s)" % (a_, b_), "no path evaluated", loc=core.loc())
                         continue
                     R.check("R03-b", "core-descent:(%s, %s)" % (a_, b_), not skipping,
                             "every path checks the fragment's selection set", "%s can return before check_selection_set when the enclosing type "
                             "is a %s and the type condition a %s (%d of %d paths): the selection set of such a fragment is never validated "
-                            "(e.g. `node { ... on Node { nope } }` when both sides are the same interface)"
-                            % (core.path, a_, b_, len(skipping), len(paths)), loc=core.loc())
+                            "(%s)" % (core.path, a_, b_, len(skipping), len(paths),
+                                      "e.g. `node { ... on Node { nope } }` when both sides are the same interface" if b_ in COMPOSITE else
+                                      "`... on SomeEnum { id }` is accepted: nothing reports the non-composite type condition, and generate "
+                                      "later trusts the unchecked body"), loc=core.loc())
         except TooComplex as ex:
             R.undecided("R03-b", "core-descent", "abstract evaluation of %s gave up: %s" % (short(core.path), ex), loc=core.loc())
     # the spread's own name is on the stack handed down
